@@ -73,15 +73,21 @@ func joinFlag(vals []string, style int) []string {
 	if len(vals) == 0 {
 		return nil
 	}
-	switch style % 4 {
+	switch style % 6 {
 	case 0:
 		return []string{strings.Join(vals, ",")}
 	case 1:
 		return []string{strings.Join(vals, ";")}
 	case 2:
 		return []string{strings.Join(vals, " , ")}
+	case 3:
+		return vals // repeated flag
+	case 4:
+		// the same name twice inside one value
+		return []string{strings.Join(append(append([]string{}, vals...), vals[len(vals)-1], vals[0]), ",")}
 	}
-	return vals // repeated flag
+	// the same name in two occurrences of the flag
+	return append(append([]string{}, vals...), vals[0])
 }
 
 type c18Run struct {
@@ -187,7 +193,7 @@ func checkC18(tier, replay string) int {
 		for _, v := range joinFlag(r.B, r.Style) {
 			argv = append(argv, "-b", v)
 		}
-		for _, v := range joinFlag(r.A, r.Style/4) {
+		for _, v := range joinFlag(r.A, r.Style/6) {
 			argv = append(argv, "-allow", v)
 		}
 		argv = append(argv, bin)
@@ -275,7 +281,7 @@ func checkC18(tier, replay string) int {
 	ctx.Cov["profiler_runs"] = done
 	ctx.Cov["runs_with_non_empty_profile"] = nonEmpty
 	ctx.Cov["filter_events_executed"] = events
-	ctx.Cov["rule"] = "the real profiler binary (with a fake `go` tool printing a synthetic listing) is run for every sub-multiset of a 6-site universe (read, write at two sites, execve, a number in no table, syscall 0 through the XOR idiom) x blacklist subsets of {read, execve, bogus} x allow subsets of {write, openat, bogus, waitpid(i386 only)} x flag spellings (comma, semicolon, blank+comma, repeated flag) x formats {config, code} x binaries {amd64, 386} (quick: a rotating selection of the last dimensions; thorough: the full product); the emitted name list (YAML parsed by the harness / Go code parsed with go/parser) must equal sort(dedup((found ∩ table) − blacklist) ∪ (allow ∩ table)); the YAML must load through ucfg and compile to a filter that, on every cell of the exact partition, allows exactly those syscalls and answers errno otherwise; non-trivial = runs with a non-empty profile"
+	ctx.Cov["rule"] = "the real profiler binary (with a fake `go` tool printing a synthetic listing) is run for every sub-multiset of a 6-site universe (read, write at two sites, execve, a number in no table, syscall 0 through the XOR idiom) x blacklist subsets of {read, execve, bogus} x allow subsets of {write, openat, bogus, waitpid(i386 only)} x flag spellings (comma, semicolon, blank+comma, repeated flag, a name repeated inside one value, a name repeated across flags) x formats {config, code} x binaries {amd64, 386} (quick: a rotating selection of the last dimensions; thorough: the full product); the emitted name list (YAML parsed by the harness / Go code parsed with go/parser) must equal sort(dedup((found ∩ table) − blacklist) ∪ (allow ∩ table)); the YAML must load through ucfg and compile to a filter that, on every cell of the exact partition, allows exactly those syscalls and answers errno otherwise; non-trivial = runs with a non-empty profile"
 	ctx.Assumptions = []string{"set algebra of the statement for disjoint flag sets", "the fake go tool stands for the disassembler"}
 	return ctx.Finish()
 }
